@@ -131,6 +131,9 @@ pub struct NetWorld {
     pub clients: Vec<ClientEnd>,
     pub pool: Vec<Dgram>,
     pub now: Duration,
+    /// seconds the clients' clocks differ from the servers' (and the token issuer's): a client only ever uses differences of its own
+    /// clock, so whether it counts from its start-up, from 1970 or runs a few minutes ahead or behind must not matter
+    pub client_skew: i64,
 }
 
 pub fn mk_server(i: usize, key_n: u64, protocol: u64, max_clients: usize, now: Duration, secure: bool) -> ServerEnd {
@@ -149,7 +152,14 @@ pub fn mk_server(i: usize, key_n: u64, protocol: u64, max_clients: usize, now: D
 impl NetWorld {
     pub fn new(seed: u64) -> Self {
         renetcode::verif::set_rng_seed(Some(seed | 1));
-        NetWorld { servers: vec![], clients: vec![], pool: vec![], now: Duration::from_secs(1000) }
+        let client_skew = match (seed >> 2) % 8 {
+            0..=3 => 0,
+            4 => 120,
+            5 => 1_790_000_000,
+            6 => -900,
+            _ => 7,
+        };
+        NetWorld { servers: vec![], clients: vec![], pool: vec![], now: Duration::from_secs(1000), client_skew }
     }
 
     pub fn mint(&self, t: &TokenSpec) -> ConnectToken {
@@ -158,7 +168,8 @@ impl NetWorld {
     }
 
     pub fn add_client(&mut self, token: ConnectToken, addr: SocketAddr, user: u64) -> usize {
-        let client = NetcodeClient::new(self.now, ClientAuthentication::Secure { connect_token: token.clone() }).expect("client from a generated token");
+        let client_clock = if self.client_skew >= 0 { self.now + Duration::from_secs(self.client_skew as u64) } else { self.now.saturating_sub(Duration::from_secs(self.client_skew.unsigned_abs())) };
+        let client = NetcodeClient::new(client_clock, ClientAuthentication::Secure { connect_token: token.clone() }).expect("client from a generated token");
         let client_id = token.client_id;
         self.clients.push(ClientEnd { client, addr, token, client_id, user, sent: vec![], payloads_got: vec![] });
         self.clients.len() - 1
